@@ -112,3 +112,56 @@ def sweep_property(ctx) -> None:
             ctx.error(f"sweep variant {vid}: {status} {detail}")
     ctx.extra["sweep"] = counts
     ctx.extra["sweep_variants"] = len(cat)
+
+
+def _corpus_job(args):
+    from .patchvariants import run_on
+    cid, kind, text, prop = args
+    return cid, kind, run_on(prop, text)
+
+
+def corpus_property(ctx) -> None:
+    """Thorough tier, second part: the committed corpora of /verif (sa.patchvariants), applied in memory to the current source.
+    Seeded property-breaking changes that this check is recorded to catch (seeded/<id>/meta.json) must still be reported;
+    behaviour-preserving refactorings written for this property (benign/<Cxx>-<n>.patch.diff) must stay silent."""
+    from concurrent.futures import ProcessPoolExecutor
+    from .patchvariants import corpus
+
+    ctx.rule("CORPUS", "committed corpora applied in memory: every seeded change this check is recorded to catch is still reported; every behaviour-preserving refactoring written for this property is silent")
+    jobs = []
+    for cid, kind, text, meta in corpus():
+        if kind == "seed" and ctx.prop in (meta.get("checks_fired") or {}):
+            jobs.append((cid, kind, text, ctx.prop))
+        elif kind == "benign" and meta.get("property") == ctx.prop:
+            jobs.append((cid, kind, text, ctx.prop))
+    if not jobs:
+        ctx.note("no corpus entries for this property")
+        return
+    try:
+        with ProcessPoolExecutor(max_workers=min(16, len(jobs))) as ex:
+            results = list(ex.map(_corpus_job, jobs))
+    except Exception:
+        results = [_corpus_job(j) for j in jobs]
+    counts: Dict[str, int] = {}
+    dirty = bool(ctx.violations or ctx.errors)
+    for cid, kind, (status, detail) in results:
+        key = f"{kind}:{status}"
+        counts[key] = counts.get(key, 0) + 1
+        where = f"/verif/{'seeded/' + cid + '/patch.diff' if kind == 'seed' else 'benign/' + cid + '.patch.diff'}"
+        if status == "stale":
+            ctx.note(f"corpus entry {cid} stale (its hunks no longer match the source)")
+        elif kind == "seed":
+            if status == "violation":
+                ctx.ok(where, f"seeded change {cid}: reported ({detail[:160]})")
+            elif dirty:
+                ctx.note(f"seeded change {cid} not evaluated against a clean baseline: {status} {detail[:120]}")
+            else:
+                ctx.error(f"seeded change {cid} is no longer reported by this check ({status}: {detail[:160]})")
+        else:
+            if status == "ok":
+                ctx.ok(where, f"behaviour-preserving refactoring {cid}: silent")
+            elif dirty:
+                ctx.note(f"refactoring {cid} not silent, but the tree itself is not clean: {status} {detail[:120]}")
+            else:
+                ctx.error(f"behaviour-preserving refactoring {cid} raises an alarm ({status}: {detail[:200]}) - the rule is too strict")
+    ctx.extra["corpus"] = counts
